@@ -495,6 +495,17 @@ def main(argv):
         f = o.get("fn")
         if o["failed"] and f is not None and f.get("hint_lost"):
             undecided.append(f"hint-lost unit={o.get('unit')}: {o['id']} fails, but proof annotations of {f['name']} could not be placed ({'; '.join(f['hint_lost'])[:200]})")
+    # a failing obligation in a function that CALLS a helper which was auto-included without contract (its result is
+    # unconstrained for the caller) is not evidence of a violation either: "needs contract", not "bug" -> undecided
+    for o in all_obs:
+        f, ur_ = o.get("fn"), o.get("ur")
+        if not (o["failed"] and f is not None and ur_ is not None and getattr(ur_, "auto_included", None)):
+            continue
+        text = "\n".join(ur_.gen.lines[f["gen_start"] - 1:f["gen_end"]])
+        tmask = extract.mask_rust(text)
+        used = [h.split("::")[-1] for h in ur_.auto_included if h.split("::")[-1] != f["name"] and re.search(r"\b" + re.escape(h.split("::")[-1]) + r"\s*\(", tmask)]
+        if used:
+            undecided.append(f"helper-without-contract unit={o.get('unit')}: {o['id']} fails, but {f['name']} calls {', '.join(sorted(set(used)))} which is not under contract (auto-included, result unconstrained)")
     wall = time.time() - t0
     failed = [o for o in all_obs if o["failed"]]
     # ---- known findings ----
